@@ -8,7 +8,7 @@ Regenerates, as Coq data,
     signature in the trailing comment of the same line,
   * the two cheatcode addresses (class attribute `address = BV(0x..., size=160)`),
   * the list of callee addresses exempted from prank consumption in `Prank.lookup`
-    (`to not in [halmos_cheat_code.address, hevm_cheat_code.address]`),
+    (`to not in [halmos_cheat_code.address, hevm_cheat_code.address, console.address]`),
   * the dispatch of the vm.random* selectors in `hevm_cheat_code.handle`
     (`elif funsig == hevm_cheat_code.X_sig: return create_Y(ex, arg, name="Z")`),
   * the six block-setting handlers of `hevm_cheat_code.handle` (vm.fee/chainId/coinbase/
